@@ -356,7 +356,10 @@ def read_headers(sock: socket.socket) -> tuple:
         trace(line)
         if not status:
             status_info = line.split(" ", 2)
-            status = int(status_info[1])
+            try:
+                status = int(status_info[1])
+            except (IndexError, ValueError):
+                raise WebSocketException("Invalid status line")
             if len(status_info) > 2:
                 status_message = status_info[2]
         else:
